@@ -7,7 +7,7 @@ import itertools, random, json
 import common as C
 
 ID = "C10"
-COQ_TARGETS = ["Properties/C10.vo"]
+COQ_TARGETS = ["Properties/C10.vo", "GenFacts/DispatchSrcFacts.vo"]
 MODEL_TARGETS = ["Model/Dispatch.vo"]
 IMPORTS = "From Ka Require Import Model.Dispatch.\nOpen Scope string_scope.\n"
 
